@@ -620,7 +620,7 @@ RULE = ("(a) accepted programs of the whole-repertoire workload run under a moni
 
 
 def main(tier, seed):
-    params = {"n": 6000 if tier == "quick" else 60000, "bases": 1600 if tier == "quick" else 15000, "max_sites": 12 if tier == "quick" else 40}
+    params = {"n": 6000 if tier == "quick" else 60000, "bases": 1100 if tier == "quick" else 15000, "max_sites": 12 if tier == "quick" else 40}
     return driver.run_check(
         PID, shard, params, tier, seed,
         min_evaluations=15000 if tier == "quick" else 250000,
